@@ -32,7 +32,7 @@ RULE = (
     "associations, 9 op pairs, 8^3 kind triples, with one unary constructor from {.H,*2.0,*(-3),0.5*} at at most one "
     "of the 5 node positions; float64 and complex128 (jac/hess leaves real only).  For every tree: shape, "
     "{mv, mm, rmv, rmm, fullmatrix, .H.mv, .H.mm, .H.rmv, .H.fullmatrix, .H.H.mv} on all unit vectors, on dense "
-    "operands with batch shapes {(), (3,), (2,), (2,1), (1,2), (3,1,2)} (incl. fewer-but-nonzero batch dimensions than the operator) (non-broadcastable ones must raise) and on an "
+    "operands with batch shapes {(), (3,), (2,), (2,1), (1,2), (3,1,2)} (incl. fewer-but-nonzero batch dimensions than the operator; the first operand also under torch.no_grad()) (non-broadcastable ones must raise) and on an "
     "operand with a wrong last dimension (must raise).  part bad: malformed constructions must raise.  "
     "part hist: class hierarchy Base(_mv) <- Mid(+_rmv) <- Leaf(+_mm,+_fullmatrix), Base <- Other(+_rmm) created "
     "afresh per path; events = first instantiation of one of the four classes, 'attempt LinearOperator(...) itself' "
@@ -408,6 +408,18 @@ class TreeChecker:
                     ref = _mvref(M, x)
                     bound = _mvref(B, x.abs()).max().item()
                 self.compare(prod, o.value, ref, bound, xb)
+                if ixb == 0:
+                    # the same product with gradient recording switched off by the caller (the fall-backs that obtain
+                    # the adjoint by differentiation must switch it on themselves)
+                    with torch.no_grad():
+                        o2 = call(f, x)
+                    self.n += 1
+                    if o2.exc is not None:
+                        self.report(exc_fail(o2.exc), {"product": prod, "under": "torch.no_grad()"},
+                                    product=prod + "@no_grad", xb=list(xb))
+                        self.bump("exc:" + prod + "@no_grad")
+                    else:
+                        self.compare(prod + "@no_grad", o2.value, ref, bound, xb)
                 # mm equals mv column by column (direct comparison of the two library results)
                 if full and prod in ("mm", "rmm") and not xb and isinstance(o.value, torch.Tensor) \
                         and tuple(o.value.shape) == tuple(ref.shape):
